@@ -45,6 +45,8 @@ META = {
     "C14": {"text": mc("spec/cw4/Cw4.tla + Cw4MC.tla (admin hand-overs, 0-2 hooks, overlapping add/remove lists)")
                     + ". Formulas: admin / hooks / membership writers, frozen forever once the admin is cleared, UpdateMembers applies add then remove exactly, every registered hook gets exactly one identical notification whose diffs replay from the old to the new membership with truthful previous weights and name only addresses the call touched; failing calls notify nobody.",
             "design_ref": "DESIGN.md 6/C14", "note": NOTE, "technique": "TLA+ spec + TLC model checking + TLC trace validation of real executions"},
+    "C20": {"text": "TLC exhaustive check of the page rule (spec/paging/Paging.tla: exclusive cursor, take(min(limit or 10, 30))) for all sizes 0..35, both directions, all limits and all cursors: walks are complete/duplicate-free/ordered, resuming from any cursor is exact, page sizes bounded; plus trace validation: the harness builds states with 0..45 items (with deletions, filtered expired entries, non-member stakers) for all 16 real listings, records every page request (limits absent/0/1/../100; cursors from previous pages, existing keys, keys between/before/after) and every walk in rank space, and TLC checks each recorded page equals the rule's page of the true item set.",
+            "design_ref": "DESIGN.md 6/C20", "note": NOTE, "technique": "TLA+ page rule + TLC exhaustive small domain + TLC validation of recorded pages of all real listings"},
 }
 
 NOT_APPLICABLE = {
@@ -55,7 +57,6 @@ NOT_APPLICABLE = {
     "C11": "check under construction in this session",
  "C16": "check under construction in this session",
     "C17": "check under construction in this session", "C18": "check under construction in this session",
-    "C20": "check under construction in this session",
 }
 
 NOTES = ("All checks: ./check <ID> --tier quick|thorough. VERIF_SEED seeds TLC simulation and the harness's random driver. "
